@@ -6,8 +6,9 @@ LEVEL_TEXT = ("Lean theorems over the same system as C02, for ANY event order an
               "requested value reached the controller, never while a task queued on that host needs it and never while a transfer or fetch commanded from "
               "that host is unanswered; every transmit/fetch names a source that holds the dataset and still holds it when performed; a purged dataset "
               "is never needed again; each output is fetched at most once (all nine C04 monitors never fire; InvAll tiers 3/4). Non-atomic task bodies "
-              "(Model/CtrlN.lean, every run of which projects onto the base system): a dataset is queued for purging / purged only after the notice of the "
-              "LAST output of each consumer was processed, hence never while a consumer is still running (c04_purge_after_last_notice, c04_no_purge_while_running).")
+              "(Model/CtrlN.lean, every run of which projects onto the base system): a dataset is queued for purging / purged only after the notices of ALL "
+              "outputs - in particular of the LAST one - of each consumer were processed, hence never while a consumer is still running "
+              "(c04_purge_after_last_notice, c04_no_purge_while_running).")
 LEVEL_NOTE = ("modelled, not verified: scheduler/api.py initialize/plan, scheduler/assign.py build_assignment + the pops of _assignment_heuristic, controller/act.py act/flush_queues, controller/notify.py notify/consider_*, impl.run loop skeleton (Model/Ctrl.lean, one Lean function per Python function). Abstracted as an oracle argument validated for admissibility by the model and supplied from what the real run chose: which (idle worker, computable task) pairs the distance/overhead heuristics and host->component migration pick per round, and which `available` host is the transmit source; theorems quantify over all admissible choices. Executors are abstract (Env + the non-atomic layer Model/CtrlN.lean; SimBridge mirrors both): a dispatched task starts once its inputs are in its host's store and publishes its outputs in index order, one step per output, interleaved with everything else; transmit/fetch read the source store; purge is immediate. Hypothesis WF: tasks topologically numbered, inputs duplicate-free, >=1 output per task, requested outputs exist, worker ids distinct (the generator guarantees it).")
 TECHNIQUE = "Lean 4 inductive system invariant (data location vs controller belief) over a small-step transition system + step-by-step state correspondence with the real controller (SimBridge with the same monitors written from the property text)"
 LEAN_PROPS = ["EkwVerif.Props.C04"]
